@@ -21,6 +21,7 @@ RULE = (
     "{type[, value]} node from the known vocabulary with a value of the right JSON shape. Non-trivial = nested function reference with partials, zoned datetime, "
     "non-finite float, '#' in the content key, or >= 2 invocations; distinct by structural shape."
     " Round 5: dependency sets may hold several versions of one function (references that do not resolve here); arguments may be functions that cannot be resolved here (plain, partially applied, inside a list); the arguments held by each reference object are compared with the arguments given (encoded by the independent specification, so that a lossy normalisation in the constructor shows); every memento is also written through the metadata path of a filesystem store and read back by a new backend object."
+    " Round 6: resource urls with percent escapes (also escaped escapes); one case in five is also decoded in a forked process that has the referenced functions on its path but has not imported their module."
 )
 ASSUMPTIONS = [
     "Python's NaN/Infinity literals are tolerated as plain JSON (the written hashing specification says floats get no special encoding)",
